@@ -2,6 +2,7 @@ import Babble.Proofs.HGOrder
 import Babble.Proofs.HGBlocks
 import Babble.Proofs.HGReceived
 import Babble.Proofs.DagVote
+import Babble.Proofs.HGLamport
 /-! # C04 — committed order extends causality; events are committed whole and once
     About the operational model `Babble.HG` (no quorum reasoning, any validator-set behaviour) and,
     for the two causality clauses, about the declarative model `Babble.Dag` (static validator set;
@@ -74,5 +75,60 @@ theorem every_event_committed_at_most_once (g : List Nat) (es : List Ev) (hes : 
     (∀ b ∈ (runAll (St.init g) es).blocks, b.events.Nodup) ∧
     (runAll (St.init g) es).blocks.Pairwise (fun a b => ∀ x ∈ a.events, x ∉ b.events) :=
   committed_once g es hes hnd
+
+/-! ## the causality clause on the operational model
+    The two theorems at the top are about the declarative model.  The same clause on the operational
+    model — the one compared with the Go code on every insertion — for any validator-set behaviour: -/
+
+/-- **Lamport timestamps increase along the parent edges** (operational model): in every state a
+    node started from genesis reaches through insertion attempts — admitted or refused — of fresh
+    events, every stored event has a Lamport timestamp, the parents it names are stored, and their
+    timestamps are strictly smaller -/
+theorem lamport_increases_along_parents (g : List Nat) (es : List Ev) (hnd : (es.map (·.id)).Nodup)
+    (hfresh : ∀ e ∈ es, e.id ≠ "" ∧ e.lamport = none ∧ e.rr = none) (x : String) (e : Ev)
+    (hx : (runAll (St.init g) es).get x = some e) :
+    ∃ t, e.lamport = some t ∧
+      (e.sp ≠ "" → ∃ p tp, (runAll (St.init g) es).get e.sp = some p ∧ p.lamport = some tp ∧ tp < t) ∧
+      (e.op ≠ "" → ∃ p tp, (runAll (St.init g) es).get e.op = some p ∧ p.lamport = some tp ∧ tp < t) :=
+  lamport_parents g es hnd hfresh x e hx
+
+/-- `a` is a proper ancestor of `b` in the stored history: a non-empty path of parent references -/
+inductive ProperAncestor (s : St) : String → String → Prop
+  | parent {a b : String} {eb : Ev} : s.get b = some eb → a ≠ "" → (eb.sp = a ∨ eb.op = a) → ProperAncestor s a b
+  | trans {a b c : String} : ProperAncestor s a b → ProperAncestor s b c → ProperAncestor s a c
+
+/-- **never later within a block, on the operational model**: a proper ancestor has a strictly
+    smaller Lamport timestamp than its descendant; with `frame_order_respects_lamport` it is
+    committed earlier whenever both are in the same frame -/
+theorem lamport_respects_ancestry_operational (g : List Nat) (es : List Ev) (hnd : (es.map (·.id)).Nodup)
+    (hfresh : ∀ e ∈ es, e.id ≠ "" ∧ e.lamport = none ∧ e.rr = none) (a b : String)
+    (h : ProperAncestor (runAll (St.init g) es) a b) :
+    ∃ ea eb ta tb, (runAll (St.init g) es).get a = some ea ∧ (runAll (St.init g) es).get b = some eb ∧
+      ea.lamport = some ta ∧ eb.lamport = some tb ∧ ta < tb := by
+  induction h with
+  | @parent a b eb hb hne hpar =>
+    obtain ⟨t, ht, h1, h2⟩ := lamport_parents g es hnd hfresh b eb hb
+    rcases hpar with hp | hp
+    · subst hp
+      obtain ⟨p, tp, hp1, hp2, hp3⟩ := h1 hne
+      exact ⟨p, eb, tp, t, hp1, hb, hp2, ht, hp3⟩
+    · subst hp
+      obtain ⟨p, tp, hp1, hp2, hp3⟩ := h2 hne
+      exact ⟨p, eb, tp, t, hp1, hb, hp2, ht, hp3⟩
+  | trans _ _ ih1 ih2 =>
+    obtain ⟨ea, eb1, ta, tb1, ha, hb1, hta, htb1, hlt1⟩ := ih1
+    obtain ⟨eb2, ec, tb2, tc, hb2, hc, htb2, htc, hlt2⟩ := ih2
+    rw [hb1] at hb2; injection hb2 with hb2; subst hb2
+    rw [htb1] at htb2; injection htb2 with htb2; subst htb2
+    exact ⟨ea, ec, ta, tc, ha, hc, hta, htc, by omega⟩
+
+/-- non-vacuity: two validators, a first event each, then an event of validator 0 on top of both -/
+example :
+    let es : List Ev := [
+      { id := "a", creator := 0, index := 0, sp := "", op := "", ts := 1, key := 1, mid := true },
+      { id := "b", creator := 1, index := 0, sp := "", op := "", ts := 2, key := 2, mid := true },
+      { id := "c", creator := 0, index := 1, sp := "a", op := "b", ts := 3, key := 3, mid := true }]
+    ((runAll (St.init [0, 1]) es).events.map (fun e => (e.id, e.lamport))) = [("c", some 1), ("b", some 0), ("a", some 0)] := by
+  decide
 
 end Babble.Props.C04
